@@ -758,6 +758,55 @@ func runC06(c *h.Ctx) {
 		cs.Distinct(fmt.Sprintf("js-%s-%d", ts[0].name, len(doc)/16))
 	})
 
+	// ---- JSON documents with very large keys and strings (escaped and plain), beyond every pooled cache
+	c.Run("json-huge", c.N(16, 64), func(cs *h.Case) {
+		const idl = "namespace go verif\nstruct R { 1: optional map<string,i32> m, 2: optional string s, 3: optional R r, 4: optional list<string> l }\nservice Svc { R M(1: R req) }\n"
+		const ptext = "syntax = \"proto3\";\noption go_package = \"verif/pb\";\nmessage M { map<string, int32> m = 1; string s = 2; M r = 3; repeated string l = 4; }\nservice Svc { rpc M(M) returns (M); }\n"
+		n := []int{70000, 100000, 200000, 66000}[cs.I%4]
+		esc := (cs.I/4)%2 == 0
+		unit := "abcdefgh"
+		if esc {
+			unit = `ab\ncd\"e` // 10 source bytes, 7 decoded
+		}
+		big := strings.Repeat(unit, n/len(unit)+1)
+		var doc string
+		switch (cs.I / 8) % 4 {
+		case 0:
+			doc = `{"m":{"` + big + `":1,"k":2}}`
+		case 1:
+			doc = `{"` + big + `":{"a":[1,2]},"s":"x"}` // an unknown member with a huge name
+		case 2:
+			doc = `{"s":"` + big + `","r":{"l":["` + big + `"]}}`
+		default:
+			doc = `{"r":{"r":{"m":{"` + big + `":7}}}}`
+		}
+		cs.Info("doc-len", len(doc))
+		svc, err := thrift.NewDescritorFromContent(context.Background(), "verif.thrift", idl, nil, false)
+		if err != nil {
+			cs.Viol("robust:parse-idl", "err", err)
+			return
+		}
+		desc, _ := RootOf(svc, "M")
+		psvc, err := dproto.NewDescritorFromContent(context.Background(), "verif.proto", ptext, nil)
+		if err != nil {
+			cs.Viol("robust:parse-proto", "err", err)
+			return
+		}
+		pdesc := psvc.LookupMethodByName("M").Input()
+		o := conv.Options{DisallowUnknownField: cs.R.Bool()}
+		ts := []c06Target{
+			{"j2t.Do", func(in []byte) { cv := j2t.NewBinaryConv(o); cv.Do(context.Background(), desc, in) }},
+			{"j2p.Do", func(in []byte) { cv := j2p.NewBinaryConv(o); cv.Do(context.Background(), pdesc, in) }},
+		}
+		for _, t := range ts {
+			c06Call(cs, t, []byte(doc))
+			// and cut inside the big token
+			c06Call(cs, t, []byte(doc[:len(doc)/2]))
+		}
+		cs.Cover("json_huge_docs")
+		cs.Distinct(fmt.Sprintf("jh-%d-%v-%d", n, esc, (cs.I/8)%4))
+	})
+
 	// ---- converters with http mapping / value mapping switched on (control returns to Go mid-struct)
 	c.Run("http-paths", c.N(1500, 60000), func(cs *h.Case) {
 		hs, err := thrift.NewDescritorFromContent(context.Background(), "h.thrift", c12HTTPIDL, nil, false)
